@@ -683,7 +683,7 @@ fn run_hasher<H: ElementHasher<BaseField = BaseElement> + Sync>(tag: &str, damag
                 Ok(false) => {},
                 Ok(true) if at == partition_byte => {},
                 Ok(true) => fail(format!("proof with {desc} is accepted: {what}")),
-                Err(_) if last_panic().contains("tests/verif_") => c.air_refusals += 1,
+                Err(_) if last_panic().starts_with(file!()) => c.air_refusals += 1,
                 Err(_) => fail(format!("parsing/verifying a proof with {desc} panicked at {}: {what}", last_panic())),
             }
         };
